@@ -134,7 +134,8 @@ func ToWalletAddr(protoAddr *Address) (map[wallet.BackendID]wallet.Address, erro
 	addrMap := make(map[wallet.BackendID]wallet.Address)
 
 	for i := range protoAddr.GetAddressMapping() {
-		var k int32
+		// The key is written as an unsigned 32 bit number.
+		var k uint32
 		if err := binary.Read(bytes.NewReader(protoAddr.GetAddressMapping()[i].GetKey()), binary.BigEndian, &k); err != nil {
 			return nil, fmt.Errorf("failed to read key: %w", err)
 		}
@@ -156,7 +157,8 @@ func ToWireAddr(protoAddr *Address) (map[wallet.BackendID]wire.Address, error) {
 	addrMap := make(map[wallet.BackendID]wire.Address)
 
 	for i := range protoAddr.GetAddressMapping() {
-		var k int32
+		// The key is written as an unsigned 32 bit number.
+		var k uint32
 		if err := binary.Read(bytes.NewReader(protoAddr.GetAddressMapping()[i].GetKey()), binary.BigEndian, &k); err != nil {
 			return nil, fmt.Errorf("failed to read key: %w", err)
 		}
